@@ -39,6 +39,29 @@ pub fn run(ctx: &Ctx) -> Report {
         }
     }
     let al = if ctx.quick() { Alphabet::thin() } else { Alphabet::full() };
+    // start from non-initial states too: a limited allocator that already holds an old 1100-byte atom, an outstanding
+    // transparent checkpoint and 1100 bytes of garbage after it — the value-preserving restore classes (old bytes,
+    // new bytes, in-place) are then within the depth bound while the heap cap is 0..2200 bytes away
+    {
+        let thin = Alphabet::thin();
+        let prefix = vec![Op::NewAtom(vec![0x62; 1100]), Op::NewAtom(vec![0x00, 0x80]), Op::TCheckpoint, Op::NewAtom(vec![0x63; 1100])];
+        for h in ctx.pick(vec![2204usize, 2300, 3400], vec![2204, 2205, 2208, 2300, 3303, 3304, 3400, 4500]) {
+            let desc = format!("new_limited({h}) NewAtom(1100B) NewAtom(0080) TCheckpoint NewAtom(1100B)");
+            let init = || {
+                let mut st = St::new(Allocator::new_limited(h), h);
+                let mut scratch = Acc::default();
+                for op in &prefix {
+                    let _ = step(&mut st, op, &thin, modes, &mut scratch);
+                }
+                st
+            };
+            let r = bfs(ctx, init, &desc, &thin, ctx.pick(3, 4), modes, 30_000_000);
+            rep.states += r.states;
+            rep.transitions += r.transitions;
+            per.push(json!({"init": desc, "depth": ctx.pick(3, 4), "states": r.states, "transitions": r.transitions, "cap_failures": r.acc.get("cap_failures")}));
+            rep.absorb(r.acc);
+        }
+    }
     for (desc, hl, ghost_atoms, ghost_pairs) in &inits {
         let limit = hl.unwrap_or(u32::MAX as usize);
         let init = || {
@@ -64,7 +87,7 @@ pub fn run(ctx: &Ctx) -> Report {
     rep.evaluations = rep.transitions;
     rep.traces = rep.transitions;
     rep.nontrivial = rep.acc.get("cap_failures");
-    rep.rule = format!("explicit-state BFS (depth {depth}) of the allocator alphabet from pre-loaded start states: new_limited(h) for every h in 1..={hmax} and h in {big:?} (next to the 49/1100-byte alphabet atoms), ghost atoms / ghost pairs at every distance k in 0..={kmax} from the 62,500,000 caps, and all three at once; oracle per transition: the operation fails with TooManyAtoms / TooManyPairs / OutOfMemory iff the heap-only model would exceed the matching cap, a failed call leaves the complete internal fingerprint unchanged, and no count exceeds its cap in any reached state. Non-trivial = transitions that failed at a cap exactly as predicted.");
+    rep.rule = format!("explicit-state BFS (depth {depth}) of the allocator alphabet from pre-loaded start states: new_limited(h) for every h in 1..={hmax} and h in {big:?} (next to the 49/1100-byte alphabet atoms), ghost atoms / ghost pairs at every distance k in 0..={kmax} from the 62,500,000 caps, and all three at once; plus limited allocators pre-populated with an old 1100-byte atom, an outstanding transparent checkpoint and 1100 bytes of garbage (heap cap 0..2200 bytes away); oracle per transition: the operation fails with TooManyAtoms / TooManyPairs / OutOfMemory iff the heap-only model would exceed the matching cap, a failed call leaves the complete internal fingerprint unchanged, and no count exceeds its cap in any reached state. Non-trivial = transitions that failed at a cap exactly as predicted.");
     rep.assumptions.push("when two caps are exceeded at once either error is accepted".into());
     rep
 }
